@@ -67,7 +67,7 @@ void _ZN5cocls13suspend_pointIbED2Ev(SPB *sp) {
   void DTOR(PR *this_)                 { FUT *f = PR_OWNER(this_); PR_OWNER(this_) = 0;                                             \
     if (f) { cv_pr_log(f, PR_DROP, 0, 0);  } }                             \
   void SET_EXC(SPB *ret, PR *this_, EXCP *e) { FUT *f = PR_OWNER(this_); PR_OWNER(this_) = 0;                                        \
-    if (f) { cv_pr_log(f, PR_EXC, 0, e->_M_exception_object);                                                                        \
+    if (f) { cv_pr_log(f, PR_EXC, 0, e->_M_exception_object); if (e->_M_exception_object) gh_ep_addref++;   /* the future keeps a reference */                                                                        \
       } \
     else gh_pr.lost++;                                                                                                               \
     cv_pr_result(ret, f != 0, (void *)f == gh_pr.fresh); }
